@@ -249,13 +249,11 @@ class Ctx:
         audit the development, run Print Assumptions on every theorem in them."""
         st = ProofStatus()
         self.proof = st
-        with Lock("coq"):
-            ensure_coq_makefile()
+        if True:
             targets = [p[:-2] + ".vo" for p in props_files]
-            cmd = ["make", "-j16"] + targets
-            st.cmds.append("cd coq && " + " ".join(cmd))
+            st.cmds.append("cd coq && make -f Makefile.%s %s" % (targets[0].split("/")[0], " ".join(targets)))
             t = time.time()
-            p = sh(["timeout", str(timeout)] + cmd, cwd=COQ)
+            p = coq_make(targets, timeout=timeout)
             self.log("coq make %s: rc=%d in %.1fs" % (" ".join(targets), p.returncode, time.time() - t))
             thms = {}
             for pf in props_files:
@@ -272,7 +270,7 @@ class Ctx:
                 # which Props files still built?
                 for pf in props_files:
                     vo = os.path.join(COQ, pf[:-2] + ".vo")
-                    q = sh(["make", "-q", pf[:-2] + ".vo"], cwd=COQ)
+                    q = coq_make([pf[:-2] + ".vo"], question=True)
                     if os.path.exists(vo) and q.returncode == 0:
                         st.discharged += thms[pf]
             else:
@@ -359,8 +357,6 @@ class Ctx:
             lines.append('Goal True. idtac "@@CASE %d". exact I. Qed.' % i)
             lines.append("Eval vm_compute in (%s)." % e)
         open(f, "w").write("\n".join(lines) + "\n")
-        with Lock("coq"):
-            ensure_coq_makefile()
         r = sh(["timeout", str(timeout), "coqc", "-noglob", "-Q", COQ, "ErgV", "-o", f + "o", f], cwd=q)
         if r.returncode != 0:
             raise FrameworkError("coq_eval failed: " + (r.stderr + r.stdout)[-3000:])
@@ -503,6 +499,32 @@ def audit_sources(rel_files=None):
     return bad
 
 
+def coq_make(targets, timeout=1500, quiet=True, question=False):
+    """make the given coq/-relative .vo targets with a per-theme Makefile (Makefile.<Theme>, own dependency file)
+    under a per-theme lock, so that themes do not block or disturb each other. The project of a theme lists the
+    theme's own files plus the dependency closure of the targets."""
+    theme = targets[0].split("/")[0]
+    rels = [t[:-3] + ".v" for t in targets]
+    files = set(coq_closure(rels))
+    td = os.path.join(COQ, theme)
+    for f in sorted(os.listdir(td)):
+        if f.endswith(".v") and not f.startswith("Extract"):
+            files.add(theme + "/" + f)
+    files = sorted(f for f in files if not os.path.basename(f).startswith("Extract"))
+    txt = "-Q . ErgV\n-arg -w -arg -notation-overridden,-deprecated-hint-without-locality,-deprecated-instance-without-locality\n" + "\n".join(files) + "\n"
+    proj = "_CoqProject." + theme
+    mk = "Makefile." + theme
+    with Lock("coq-" + theme):
+        old = open(os.path.join(COQ, proj)).read() if os.path.exists(os.path.join(COQ, proj)) else None
+        if old != txt or not os.path.exists(os.path.join(COQ, mk)):
+            open(os.path.join(COQ, proj), "w").write(txt)
+            sh(["coq_makefile", "-f", proj, "-o", mk], cwd=COQ, check=True)
+        cmd = ["timeout", str(timeout), "make", "-f", mk] + (["-q"] if question else ["-j8"]) + list(targets)
+        if quiet:
+            return sh(cmd, cwd=COQ)
+        return subprocess.run(cmd, cwd=COQ)
+
+
 def ensure_coq_makefile():
     """(re)generate coq/_CoqProject + Makefile when the set of .v files changed (caller holds the coq lock)"""
     files = []
@@ -529,13 +551,13 @@ class Model:
         os.makedirs(d, exist_ok=True)
         self.bin = os.path.join(d, "modelrun")
         src = os.path.join(COQ, theme, "Extract.v")
-        with Lock("coq"):
-            ensure_coq_makefile()
+        if True:
             # dependencies of Extract.v: everything it Requires from ErgV must be built
             txt = open(src).read()
             rel = os.path.relpath(src, COQ)
             targets = sorted(f[:-2] + ".vo" for f in coq_closure([rel]) if f != rel)
-            p = sh(["timeout", "1500", "make", "-j16"] + targets, cwd=COQ)
+            own = [t for t in targets if t.startswith(theme + "/")] + [t for t in targets if not t.startswith(theme + "/")]
+            p = coq_make(own, timeout=1500)
             if p.returncode != 0:
                 raise FrameworkError("model %s does not build: %s" % (theme, (p.stderr + p.stdout)[-3000:]))
             stamp = os.path.join(d, "stamp")
@@ -584,9 +606,7 @@ def main(argv):
         return setup.main()
     if a.cmd == "coqmake":
         # python3 vp.py coqmake Graph/Proofs.vo [more targets]: make under the shared coq lock
-        with Lock("coq"):
-            ensure_coq_makefile()
-            p = subprocess.run(["timeout", "3000", "make", "-j16"] + [a.pid] + a.rest, cwd=COQ)
+        p = coq_make([a.pid] + a.rest, timeout=3000, quiet=False)
         return p.returncode
     seed = int(os.environ.get("VERIF_SEED", "20260921"))
     tier = a.tier if a.tier in ("quick", "thorough") else "quick"
